@@ -447,12 +447,13 @@ PROPS["C17"] = {
 PROPS["C20"] = {
     "engine": "c20",
     "level": "exploration",
-    "technique": "multi-thread stress of real resource threads (ResourceRunner::spawn_with_shared, 2-4 per trial) with conservation / paired-variable / torn-read monitors on the shared store (online monotone bracket checks from an observer thread, exact checks at provably quiescent points), an in-order command sentinel deciding cycles-while-paused, a join watchdog, a recording retain store and planted faults",
+    "technique": "multi-thread stress of real resource threads (ResourceRunner::spawn_with_shared, 2-4 per trial; a quarter of the trials ResourceRunner::spawn, resources that share nothing) with conservation / paired-variable / torn-read monitors on the shared store (online monotone bracket checks from an observer thread, exact checks at provably quiescent points), an in-order command sentinel deciding cycles-while-paused, a join watchdog, a recording retain store and planted faults",
     "quick": {"shards": 8, "budget_s": 25, "watchdog_s": 600},
     "thorough": {"shards": 16, "budget_s": 600, "watchdog_s": 3000},
     "floor": {"quick": 800, "thorough": 20000},
     "require_counters": {"quick": {"stops_followed_by_clock_ticks": 300, "cycles_executed": 1000000, "pause_episodes_verified_cycle_free": 5000, "resumes_followed_by_a_cycle": 1500, "stops_verified": 2500, "stops_at_closed_gate": 300,
-                                   "quiescent_conservation_checks": 4000, "online_bracket_checks": 5000000, "samples_with_two_resources_advancing": 20000, "faults_isolated": 200},
+                                   "quiescent_conservation_checks": 4000, "online_bracket_checks": 5000000, "samples_with_two_resources_advancing": 20000, "faults_isolated": 200,
+                                   "solo_trials": 300, "solo_stops_verified": 800, "solo_pause_episodes_verified_cycle_free": 1500, "solo_resumes_followed_by_a_cycle": 400},
                          "thorough": {"cycles_executed": 20000000, "stops_verified": 60000}},
     "rule": "trial = N in 2..4 resources, each with interval {0 (free running), 1 ms}, own or common ManualClock, start gate (1/4), spin between the paired writes {0,3,30}, at most one resource "
             "with a planted division by zero at its k-th cycle (k in 0..40); controller script of 10-60 ops from {advance a clock 1-4 ms, pause, resume, open gate, stop via handle / via control, "
@@ -464,8 +465,9 @@ PROPS["C20"] = {
                   "Running and a further cycle within the watchdog. Stop (from Running, Paused, sleeping on the clock, waiting at the gate): join returns, state Stopped, exactly one retain "
                   "store call whose keepg equals the cycles executed (0 or 1 calls for a resource that never passed its gate). Fault: the faulting resource never cycles past its fault, another "
                   "running resource does cycle afterwards, no resource thread panics.",
-    "level_note": "Round d: half of the stop requests are followed at once by three 1 ns clock advances before join(). Interleavings are those the OS scheduler produces under the perturbations, not all. 10-15 s watchdogs guard operations that need microseconds. The single-resource loop "
-                  "(run_resource_loop without shared globals) has the same command/stop structure and is not driven separately. StdClock/ScaledClock resources are not driven.",
+    "level_note": "Round d: half of the stop requests are followed at once by three 1 ns clock advances before join(). Interleavings are those the OS scheduler produces under the perturbations, not all. 10-15 s watchdogs guard operations that need microseconds. Round e: a quarter of the trials drive the "
+                  "single-resource loop (ResourceRunner::spawn, run_resource_loop without shared globals - what a one-resource runtime uses) with the same scripts; cycles are counted by an I/O driver the runtime "
+                  "calls once per completed cycle, and the pause / resume / stop / retain-save / fault oracles apply unchanged (the conservation oracles do not: nothing is shared). StdClock/ScaledClock resources are not driven.",
     "assumptions": ["SharedGlobals::get and ResourceControl::state are the observation boundary", "ResourceCommand::Snapshot is answered in command order (it is handled in the same drain loop)"],
     "env": {},
     "design_ref": "DESIGN.md section 8 (as built; plan in section 3), C20",
